@@ -24,7 +24,7 @@ N = {"quick": 600, "thorough": 9500}
 
 
 def plan(tier, seed):
-    return [{"n": N[tier]} for _ in range(16)] + [{"kind": "threads", "rounds": 8 if tier == "quick" else 60}]
+    return [{"n": N[tier]} for _ in range(16)] + [{"kind": "threads", "rounds": 12 if tier == "quick" else 90}]
 
 
 def crc32_collision(ctx) -> None:
@@ -71,8 +71,9 @@ def run(shard, ctx):
     if shard.get("kind") == "threads":
         if shard.get("rounds"):
             crc32_collision(ctx)
-        for _ in range(shard["rounds"]):
-            dlms_common.run_threads(ID, dlms_gen.kamstrup_case, ctx)
+        per_meter = [lambda r: dlms_gen.kamstrup_case(r, ct=True), lambda r: dlms_gen.kamstrup_case(r, ct=False)]
+        for k in range(shard["rounds"]):
+            dlms_common.run_threads(ID, dlms_gen.kamstrup_case if k % 3 == 0 else per_meter, ctx, n_threads=2 if k % 3 == 1 else 4, n_cases=120 if k % 3 == 1 else 60)
         return
     rng = ctx.rng(ID)
     for i in range(shard["n"]):
